@@ -420,7 +420,8 @@ def sdp_strategy():
     )
     return st.fixed_dictionaries(
         {
-            'records': st.one_of(st.lists(record, max_size=12), st.lists(record, min_size=10, max_size=12)),
+            'scenario': st.sampled_from(['general'] * 5 + ['many_matches']),
+            'records': st.one_of(st.lists(record, max_size=12), st.lists(record, max_size=5)),
             'common': st.one_of(st.none(), st.none(), st.tuples(st.integers(0, 19), st.sampled_from([2, 4, 16]))),
             'server_mtu': mtu_strategy(),
             'server_delays': st.lists(st.sampled_from([0, 0, 0, 1, 7]), max_size=3),
@@ -495,7 +496,18 @@ def _resolve_ids(spec, records, rec):
 def sdp_finalize(drawn) -> dict:
     """Drawn values -> explicit plain-data case (records, per-client MTU and queries)."""
     records, seen = [], set()
-    for handle, attrs in drawn['records']:
+    many = drawn.get('scenario') == 'many_matches'
+    seed = drawn['pad'][2]
+    common = drawn['common']
+    drawn_records = list(drawn['records'])
+    if many:
+        # 10..12 records that all contain one UUID, a small client MTU: the handle list itself
+        # needs continuation responses
+        common = common or (seed % 20, (2, 4, 16)[seed % 3])
+        for k in range(12):
+            if len(drawn_records) < 10 + seed % 3:
+                drawn_records.append((0x20000 + k, []))
+    for handle, attrs in drawn_records[:12]:
         if handle in seen:
             continue
         seen.add(handle)
@@ -505,8 +517,9 @@ def sdp_finalize(drawn) -> dict:
                 continue
             ids.add(a)
             alist.append([a, ['i', handle, 4] if a == 0 else normalize(v)])
-        if drawn['common'] is not None and 1 not in ids:
-            ident, w = drawn['common']
+        if common is not None and (many or 1 not in ids):
+            ident, w = common
+            alist = [e for e in alist if e[0] != 1]
             alist.append([1, ['q', [['u', ident, uuid_width(ident, w)]]]])
         records.append({'handle': handle, 'attrs': alist})
     clients = []
@@ -524,6 +537,12 @@ def sdp_finalize(drawn) -> dict:
             else:
                 queries.append(['sa', _resolve_pattern(q[1], records), _resolve_ids(q[2], records, None)])
         clients.append({'mtu': c['mtu'], 'queries': queries, 'gaps': list(c['gaps']), 'delays': list(c['delays'])})
+    if many:
+        c0 = clients[0]
+        c0['mtu'] = 48 + seed % 11
+        pattern = [[common[0], uuid_width(common[0], (2, 4, 16)[(seed >> 2) % 3])]]
+        first = ['ss', pattern] if seed % 4 else ['sa', pattern, [[0, 0xFFFF]]]
+        c0['queries'] = [first] + c0['queries'][: 3]
     case = {'kind': 'sdp', 'records': records, 'server_mtu': drawn['server_mtu'],
             'server_delays': list(drawn['server_delays']), 'clients': clients}
     _cap_mtus(case)
@@ -839,6 +858,8 @@ def av_strategy(proto: str):
     def build(d):
         mtu = d['mtu']
         msgs = []
+        # distinct content seeds: no two messages of a case are byte-identical
+        d = dict(d, msgs=[dict(m, seed=(m['seed'] + 61 * k) & 0xFF) for k, m in enumerate(d['msgs'])])
         for m in d['msgs']:
             msgs.append(_av_message(proto, mtu, m))
         case = {'kind': proto, 'mtu': mtu, 'msgs': msgs, 'fault': None}
@@ -846,9 +867,10 @@ def av_strategy(proto: str):
             # layout: A (any), F (fragmented), B, C (one single, one fragmented)
             fkind, fidx, order = d['fault']
             a = msgs[0]
-            f = _av_message(proto, mtu, dict(d['msgs'][1 % len(d['msgs'])], size=('frag', d['fault_frags'])))
-            single = _av_message(proto, mtu, dict(d['msgs'][-1], size=('single', d['fault_frags'])))
-            frag = _av_message(proto, mtu, dict(d['msgs'][0], size=('frag', 1 + d['fault_frags'] % 3)))
+            s0 = d['msgs'][0]['seed']
+            f = _av_message(proto, mtu, dict(d['msgs'][1 % len(d['msgs'])], size=('frag', d['fault_frags']), seed=(s0 + 17) & 0xFF))
+            single = _av_message(proto, mtu, dict(d['msgs'][-1], size=('single', d['fault_frags']), seed=(s0 + 101) & 0xFF))
+            frag = _av_message(proto, mtu, dict(d['msgs'][0], size=('frag', 1 + d['fault_frags'] % 3), seed=(s0 + 173) & 0xFF))
             case['msgs'] = [a, f] + ([single, frag] if order else [frag, single])
             case['fault'] = [fkind, fidx]
         return case
@@ -1081,7 +1103,7 @@ def run_avdtp_case(ctx, case) -> None:
 
     mtu = case['mtu']
     msgs = case['msgs']
-    fault = case.get('fault')
+    fault = case.get('fault') if len(case['msgs']) >= 3 else None
     loop = vloop.new_loop()
     try:
         channel = StubChannel(mtu)
@@ -1245,9 +1267,9 @@ def _judge_av(fail, proto, expected, delivered, fault, what_fault, situation, ex
     if len(delivered) != len(set(delivered)) and len(set(expected)) == len(expected):
         fail(f'{proto}/fault/duplicate/{situation}', f'{what_fault}: a message was delivered twice{exc_note}')
         return
-    missing = [k for k, e in enumerate(expected) if k != 1 and e not in delivered]
+    missing = [k for k, e in enumerate(expected) if k != 1 and delivered.count(e) < required.count(e)]
     if missing:
-        k = missing[0]
+        k = missing[0] if delivered[:1] != [expected[0]] else next((x for x in missing if x >= 2), missing[0])
         which = 'preceding' if k == 0 else 'following'
         fail(f'{proto}/fault/{which}_lost/{situation}',
              f'{what_fault}: the well-formed {which} message #{k} ({len(expected[k][-1])} bytes) was not delivered; '
@@ -1287,7 +1309,7 @@ def run_avctp_case(ctx, case) -> None:
 
     mtu = case['mtu']
     msgs = case['msgs']
-    fault = case.get('fault')
+    fault = case.get('fault') if len(case['msgs']) >= 3 else None
     loop = vloop.new_loop()
     try:
         delivered: list = []
@@ -1366,15 +1388,28 @@ STREAM_MODEL = {
 
 
 def stream_strategy():
-    op = st.tuples(st.sampled_from(STREAM_OPS + ['configure', 'open', 'start']), st.sampled_from(['api', 'api', 'raw']))
+    """Operation lists biased towards legal operations by a walk over the model (plain data out)."""
+
+    def build(d):
+        model, ops = 'IDLE', []
+        for r, k, mode in d['ops']:
+            legal = sorted(STREAM_MODEL[model])
+            name = legal[k % len(legal)] if r < 60 else STREAM_OPS[k % len(STREAM_OPS)]
+            ops.append([name, mode])
+            if name in STREAM_MODEL[model]:
+                model = STREAM_MODEL[model][name]
+            elif name == 'start' and model == 'CONFIGURED':
+                model = 'STREAMING'  # (generation bias only; the run decides which of the two happened)
+        return {'kind': 'stream', 'create_stream': d['create_stream'], 'delays': d['delays'], 'ops': ops}
+
+    op = st.tuples(st.integers(0, 99), st.integers(0, 11), st.sampled_from(['api', 'api', 'raw']))
     return st.fixed_dictionaries(
         {
-            'kind': st.just('stream'),
             'create_stream': st.booleans(),
             'delays': st.lists(st.sampled_from([0, 0, 0, 1, 7]), max_size=3),
-            'ops': st.lists(op, min_size=1, max_size=14).map(lambda ops: [list(o) for o in ops]),
+            'ops': st.lists(op, min_size=1, max_size=14),
         }
-    )
+    ).map(build)
 
 
 def _codec(source: bool):
@@ -1581,10 +1616,10 @@ def run_stream_case(ctx, case) -> None:
 def run(ctx) -> None:
     vloop.selftest()
     continuation_limit()
-    ctx.hyp('sdp', lambda d: run_sdp_case(ctx, sdp_finalize(d)), sdp_strategy(), max_examples=ctx.n(260, 16000))
-    ctx.hyp('avdtp', lambda c: run_avdtp_case(ctx, c), av_strategy('avdtp'), max_examples=ctx.n(1500, 200000))
-    ctx.hyp('avctp', lambda c: run_avctp_case(ctx, c), av_strategy('avctp'), max_examples=ctx.n(1500, 200000))
-    ctx.hyp('stream', lambda c: run_stream_case(ctx, c), stream_strategy(), max_examples=ctx.n(150, 8000))
+    ctx.hyp('sdp', lambda d: run_sdp_case(ctx, sdp_finalize(d)), sdp_strategy(), max_examples=ctx.n(400, 16000))
+    ctx.hyp('avdtp', lambda c: run_avdtp_case(ctx, c), av_strategy('avdtp'), max_examples=ctx.n(2000, 200000))
+    ctx.hyp('avctp', lambda c: run_avctp_case(ctx, c), av_strategy('avctp'), max_examples=ctx.n(2000, 200000))
+    ctx.hyp('stream', lambda c: run_stream_case(ctx, c), stream_strategy(), max_examples=ctx.n(300, 8000))
     for label, n in (
         ('sdp:clients:1', 20), ('sdp:clients:2', 10), ('sdp:clients:3', 10),
         ('sdp:continuation', 20), ('sdp:ss_continuation', 3), ('sdp:ga_continuation', 5), ('sdp:sa_continuation', 5),
